@@ -209,3 +209,57 @@ theorem relToStart_syntax (b : UInt64) (f : Dec.Parts) (hf : Dec.classify b = .f
   simp only [formatFixed_syntax b 1 f hf, duration_syntax m s cs hs hcs, Bool.and_self]
 
 end TrackVerif.LT.Spec
+
+namespace TrackVerif.LT.Spec
+open TrackVerif TrackVerif.LT TrackVerif.LT.Fmt TrackVerif.LT.Time
+
+/-- FixDate syntax: `DD-MON-YY,HH:MM:SS.cc` -/
+theorem fixdate_syntax (c : Civil) (hv : ValidCivil c) (hns : c.ns < 1000000000) :
+    isFixDate (toUpperAscii (formatToks c fixToks)) = true := by
+  have hlap := lapdate_syntax c hv
+  obtain ⟨y1, y2, m1, m2, d1, d2, hh, hm, hs⟩ := hv
+  have hd : c.day ≤ 31 := by
+    have : daysIn c.year c.month ≤ 31 := by unfold daysIn; split <;> (try split) <;> omega
+    omega
+  obtain ⟨da, db, ed, hda, hdb, td⟩ := isTwo_pad2 c.day 1 31 (by omega) d1 hd
+  obtain ⟨ya, yb, ey, hya, hyb, ty⟩ := isTwo_pad2 (c.year % 100).toNat 0 99 (by omega) (by omega) (by omega)
+  obtain ⟨ha, hb, eh, hha, hhb, th⟩ := isTwo_pad2 c.hour 0 23 (by omega) (by omega) (by omega)
+  obtain ⟨ma, mb, em, hma, hmb, tm⟩ := isTwo_pad2 c.min 0 59 (by omega) (by omega) (by omega)
+  obtain ⟨sa, sb, es, hsa, hsb, ts⟩ := isTwo_pad2 c.sec 0 59 (by omega) (by omega) (by omega)
+  obtain ⟨fa, fb, ef, hfa, hfb, tf⟩ := isTwo_pad2 (c.ns / 10000000) 0 99 (by omega) (by omega) (by omega)
+  obtain ⟨a, b, cc, emon, hmon, la, lb, lc⟩ := month_shape c.month m1 m2
+  have e9 : (10 : Nat) ^ (9 - 2) = 10000000 := by decide
+  have hsplit : formatToks c fixToks = formatToks c lapToks ++ ('.' :: pad2 (c.ns / 10000000)) := by
+    simp [fixToks, lapToks, formatToks, e9, pad2]
+  have hlapText : toUpperAscii (formatToks c lapToks) =
+      [da, db, '-', a, b, cc, '-', ya, yb, ',', ha, hb, ':', ma, mb, ':', sa, sb] := by
+    simp only [lapToks, formatToks]
+    simp only [toUpper_append, toUpper_cons, up_dash, up_comma, up_colon, List.append_nil, ed, ey, eh, em, es, emon]
+    rfl
+  rw [hsplit, toUpper_append, toUpper_cons, up_dot, ef]
+  rw [hlapText] at hlap ⊢
+  have n1 := digit_not_punct da hda; have n2 := digit_not_punct db hdb
+  have n3 := digit_not_punct ya hya; have n4 := digit_not_punct yb hyb
+  have n5 := digit_not_punct ha hha; have n6 := digit_not_punct hb hhb
+  have n7 := digit_not_punct ma hma; have n8 := digit_not_punct mb hmb
+  have n9 := digit_not_punct sa hsa; have n10 := digit_not_punct sb hsb
+  have n11 := digit_not_punct fa hfa; have n12 := digit_not_punct fb hfb
+  have k1 := upper_alpha_not_punct a la; have k2 := upper_alpha_not_punct b lb; have k3 := upper_alpha_not_punct cc lc
+  have hnd : ∀ x ∈ [da, db, '-', a, b, cc, '-', ya, yb, ',', ha, hb, ':', ma, mb, ':', sa, sb], x ≠ '.' := by
+    intro x hx
+    simp only [List.mem_cons, List.not_mem_nil, or_false] at hx
+    rcases hx with h|h|h|h|h|h|h|h|h|h|h|h|h|h|h|h|h|h <;> subst h <;>
+      first | exact n1.2.1 | exact n2.2.1 | exact n3.2.1 | exact n4.2.1 | exact n5.2.1 | exact n6.2.1
+            | exact n7.2.1 | exact n8.2.1 | exact n9.2.1 | exact n10.2.1 | exact k1.2.1 | exact k2.2.1 | exact k3.2.1
+            | decide
+  have hnd2 : ∀ x ∈ [fa, fb], x ≠ '.' := by
+    intro x hx
+    simp only [List.mem_cons, List.not_mem_nil, or_false] at hx
+    rcases hx with h | h <;> subst h
+    · exact n11.2.1
+    · exact n12.2.1
+  unfold isFixDate
+  rw [splitOnChar_append '.' _ _ hnd, splitOnChar_none '.' _ hnd2]
+  simp only [hlap, tf, Bool.and_self]
+
+end TrackVerif.LT.Spec
